@@ -25,6 +25,9 @@ func SafeCmdExecution(executable string, args []string, timeout time.Duration) (
 
 	if ctx.Err() == context.DeadlineExceeded {
 		ui.Warning("Command timed out: %s", executable)
+		if err == nil {
+			err = ctx.Err()
+		}
 		return "", err
 	}
 
